@@ -178,4 +178,10 @@ def run(ctx):
     for cfg in ("K1", "K2", "K3"):
         crate = ctx.crate(cfg)
         common.borrow_rules(rep, lambda: c02.check_derive(cfg, crate, rep), "C02.", "C16.derive")
+    # an imported CA must give the same issuer view in every build: the importer captures the certificate's own key
+    # identifier (or refuses) and never falls back to a configuration-dependent default
+    import c03
+    for cfg in ("K1", "K2", "K3"):
+        crate = ctx.crate(cfg)
+        common.borrow_rules(rep, lambda: c03.check_import(cfg, crate, rep), "C03.", "C16.import")
     matrix(ctx, rep)
